@@ -37,14 +37,16 @@ def main():
     env = dict(os.environ, PYTHONPATH=f"{wt}/src:/tmp/otshim", PYTHONHASHSEED="0", LOKY_MAX_CPU_COUNT="2", OMP_NUM_THREADS="1")
     meta = {"id": a.sid, "property": a.prop, "description": a.desc, "needs_to_manifest": a.needs, "ran": []}
     # 1. demo both ways
+    # (no git stash: the stash stack is shared by all worktrees of a repository)
+    sh(f"cd {wt} && git checkout -- tests; git diff -- src > patch.diff")
     r1 = sh(f"cd {wt} && /venv/bin/python demo.py", env=env)
-    sh(f"cd {wt} && git stash -q")
+    sh(f"cd {wt} && git apply -R patch.diff")
     r0 = sh(f"cd {wt} && /venv/bin/python demo.py", env=env)
-    sh(f"cd {wt} && git stash pop -q")
+    sh(f"cd {wt} && git apply patch.diff")
     meta["demo_with_change_exit"] = r1.returncode
     meta["demo_without_change_exit"] = r0.returncode
     meta["demo_with_change_tail"] = (r1.stdout + r1.stderr)[-600:]
-    meta["ran"].append("demo.py with the change and with it stashed (PYTHONPATH=<worktree>/src)")
+    meta["ran"].append("demo.py with the change and with it reverse-applied (PYTHONPATH=<worktree>/src)")
     print(f"demo: with change exit {r1.returncode}, without exit {r0.returncode}")
     if r1.returncode == 0 or r0.returncode != 0:
         print("REJECT: demo does not discriminate")
